@@ -155,6 +155,14 @@ theorem jacobiSweep_get (big : K → Bool) (rows : List (List (Nat × K))) (b x 
   rw [at'] at this
   rw [this, if_neg (by simpa using hne), if_pos hbig]
 
+/-- **the definition, with the guard the property allows** (`d ≠ 0`, the instance the driver uses since fix 237c789): every
+    row with a stored nonzero diagonal gets the weighted Jacobi update — no absolute cut-off -/
+theorem jacobiSweep_definition [DecidableEq K] (rows : List (List (Nat × K))) (b x : List K) (ω : K)
+    (i : Nat) (hi : i < rows.length) (hne : rows[i] ≠ []) (hd : diagOf rows[i] i ≠ 0) :
+    (jacobiSweep (fun d => decide (d ≠ 0)) rows b x ω).getD i 0
+      = (1 - ω) * at' x i + ω * ((at' b i - offSum rows[i] x i) / diagOf rows[i] i) :=
+  jacobiSweep_get _ rows b x ω i hi hne (by simpa using hd)
+
 /-- a row that is empty or whose diagonal fails the test keeps its entry -/
 theorem jacobiSweep_get_skip (big : K → Bool) (rows : List (List (Nat × K))) (b x : List K) (ω : K)
     (i : Nat) (hi : i < rows.length) (h : rows[i] = [] ∨ big (diagOf rows[i] i) = false) :
